@@ -38,6 +38,24 @@ ITER_CALLS = [(r'^distance\|', '({1} - {0})'), (r'^advance\|', '({0} += {1})'),
               (r'^prev\|.*\|#1$', '({0} - 1)'), (r'^prev\|.*\|#2$', '({0} - ({1}))'),
               (r'^next\|.*\|#1$', '({0} + 1)'), (r'^next\|.*\|#2$', '({0} + ({1}))')]
 
+def iter_default_hook(P, n):
+    """std::prev(it) / std::next(it): the omitted distance is a CXXDefaultArgExpr (no value in the dump); [iterator.operations]
+    fixes the default to 1"""
+    from cxx2c import unwrap
+    if n.get('kind') != 'CallExpr' or len(n.get('inner', [])) != 3:
+        return None
+    rd = unwrap(n['inner'][0]).get('referencedDecl') or {}
+    if rd.get('name') not in ('prev', 'next'):
+        return None
+    u = n['inner'][2]
+    while u.get('kind') in ('ExprWithCleanups', 'MaterializeTemporaryExpr', 'CXXBindTemporaryExpr') and u.get('inner'):
+        u = u['inner'][0]
+    if u.get('kind') != 'CXXDefaultArgExpr':
+        return None
+    P.note(f'std::{rd["name"]}(it) with the default distance 1')
+    return f'({P.expr(n["inner"][1])} {"-" if rd["name"] == "prev" else "+"} 1)'
+
+
 # ----------------------------------------------------------------------------- histogram_t::mean
 T_ = r'(?:signed char|short|int|long|double)'
 ACC_CALLS = [
